@@ -135,6 +135,21 @@ def real_cases(ctx, rng, nseeds):
                               "hr": [h256row(raw)], "back_ok": back[0] == "ok", "back_text": T(bt[1]) if bt[0] == "ok" else [], "mainnet": mainnet,
                               "back_mainnet": (back[1].network == "mainnet") if back[0] == "ok" else (not mainnet)})
                 ctx.nontriv(("xkey", v))
+        # after exports under explicit version bytes, the default serialisations of the same objects are still the key's own
+        for private in (True, False):
+            vb = bytes.fromhex(VERSIONS[("prv-" if private else "pub-") + ("main" if net == "mainnet" else "test")][0])
+            obj = node if private else node.pub
+            outcome(obj.xprv if private else obj.xpub, bytes.fromhex(VERSIONS[("prv-" if private else "pub-") + ("main" if net == "mainnet" else "test")][2]))
+            text = outcome(obj.xprv) if private else outcome(obj.xpub)
+            back = outcome((hd.HDPrivateKey if private else hd.HDPublicKey).parse, text[1]) if text[0] == "ok" else ("raise", None)
+            bt = outcome(back[1].xprv if private else back[1].xpub) if back[0] == "ok" else ("raise", "")
+            raw = vb + bytes([node.depth]) + node.parent_fingerprint + node.child_number.to_bytes(4, "big") + node.chain_code + \
+                (b"\x00" + node.private_key.secret.to_bytes(32, "big") if private else node.private_key.point.sec())
+            cases.append({"id": "xd%d.%s" % (si, "prv" if private else "pub"), "kind": "xkey", "version": B(vb), "depth": node.depth, "fp": B(node.parent_fingerprint),
+                          "number4": B(node.child_number.to_bytes(4, "big")), "chain": B(node.chain_code), "private": private, "k": le(node.private_key.secret),
+                          "sec": B(node.private_key.point.sec()), "text": T(text[1]) if text[0] == "ok" else [0], "hr": [h256row(raw)], "back_ok": back[0] == "ok",
+                          "back_text": T(bt[1]) if bt[0] == "ok" else [], "mainnet": net == "mainnet", "back_mainnet": (back[1].network == "mainnet") if back[0] == "ok" else (net != "mainnet")})
+            ctx.nontriv(("xkey-default-after-explicit", private))
         # SLIP-132 wallets: a root created with explicit version bytes keeps them along private and public derivation
         for vi in range(1, 5):
             if si >= 3 and vi != 1 + si % 4:
